@@ -189,7 +189,8 @@ def oracle (input implOut : String) : String :=
     | some req =>
       match implOut.splitOn "|" with
       | [h, v] =>
-        if h == "nocreds" then
+        if h.startsWith "walletquery-differs" then "WALLET-QUERY-ANSWER-DIFFERS-FROM-CREATEVP " ++ h
+        else if h == "nocreds" then
           -- only descriptors the requirement mentions can be submitted
           let matchable := ((cse.descs.filter fun d => cse.creds.any (credMatches d)).map (·.id)).filter (R.all req).contains
           let solvable := (sublists matchable).any fun s => !s.isEmpty && req.sat s
